@@ -221,6 +221,8 @@ def new_machine(kind):
 	m = _M[1]()
 	if kind == 'client-connect':   # the client machine answering a CONNECT request
 		m.request.method = 'CONNECT'
+	if kind == 'client-te':        # the request announced that it accepts trailers (says nothing about which trailers the response may carry unannounced)
+		m.request.headers['TE'] = 'trailers'
 	return m
 
 
